@@ -12,7 +12,7 @@
 (*   physics/transforms/eops: one table row per calendar day (dUT1, TAI-   *)
 (*        UTC); the row of the day is used for every instant of that day   *)
 (*                                                                         *)
-(* Model.  The calendar is stepped one day at a time (NextDay) with its    *)
+(* Model.  The calendar is stepped one day at a time (Step) with its       *)
 (* own running day-of-year counter; the closed form DayOfYear is a second, *)
 (* independent definition (DoyMatchesClosedForm).  A "transition" is the   *)
 (* step of the UTC label from second-of-day s to s+1 (s = 86399: to 0 of   *)
@@ -85,7 +85,19 @@ NextMonth == /\ d = DaysInMonth(y, m) /\ m < 12
              /\ UNCHANGED y
 NextYear == /\ d = DaysInMonth(y, m) /\ m = 12 /\ y < LastYear
             /\ y' = y + 1 /\ m' = 1 /\ d' = 1 /\ doy' = 1 /\ dayNo' = dayNo + 1
-Next == NextDayInMonth \/ NextMonth \/ NextYear
+Step == NextDayInMonth \/ NextMonth \/ NextYear
+\* short cuts by the closed forms (from 1 January of the first year to 1 January of any year, from 1 January
+\* to the first of any month): every day is also reached by stepping, so a disagreement between the stepped
+\* counters and the closed forms shows up as a violation of DoyMatchesClosedForm / DayNoMatchesClosedForm; the
+\* short cuts keep every behaviour shorter than 35 states (counterexamples stay small, workers share the days)
+JumpYear == /\ dayNo = 0
+            /\ \E yy \in (FirstYear + 1)..LastYear :
+                  y' = yy /\ m' = 1 /\ d' = 1 /\ doy' = 1 /\ dayNo' = DaysBeforeYear(yy)
+JumpMonth == /\ m = 1 /\ d = 1
+             /\ \E mm \in 2..12 :
+                   m' = mm /\ d' = 1 /\ doy' = DaysBefore(y, mm) + 1 /\ dayNo' = dayNo + DaysBefore(y, mm)
+             /\ UNCHANGED y
+Next == Step \/ JumpYear \/ JumpMonth
 Spec == Init /\ [][Next]_vars
 
 \* ------------------------------------------------------------- properties
@@ -93,7 +105,7 @@ TypeOK == y \in FirstYear..LastYear /\ m \in 1..12 /\ d \in 1..DaysInMonth(y, m)
 DoyMatchesClosedForm == doy = DayOfYear(y, m, d) /\ doy \in 1..DaysInYear(y)
 DayNoMatchesClosedForm == dayNo = DaysBeforeYear(y) + doy - 1
 \* the day-of-year counter restarts exactly at a year boundary
-DoyRestartsOnlyAtNewYear == [][(doy' = 1) <=> ("year" \in Kinds(y, m, d, 86399))]_vars
+DoyRestartsOnlyAtNewYear == [][Step => ((doy' = 1) <=> ("year" \in Kinds(y, m, d, 86399)))]_vars
 \* a 2 s transition is always classified as a leap second, and only at midnight
 LeapOnlyAtMidnight == \A s \in {0, 59, 3599, 43200, 86398, 86399} :
                          Elapsed(y, m, d, s) = 2 <=> "leapsecond" \in Kinds(y, m, d, s)
